@@ -64,6 +64,11 @@ def ctl_cases(pid):
             C.append(dict(rf=1, world=world(1, clone={0: clone}), events=[ev("register", a=0, uuid=1, rev=1), ev("start", addrs=[0]), ev("write", wid=1, off=0, len=4096), ev("read", off=0, len=4096)]))
         C.append(dict(rf=1, world=world(1, clone={0: "completed"}), events=[ev("register", a=0, uuid=1, rev=1), ev("start", addrs=[0], fs=fl((0, "clone"))), ev("read", off=0, len=4096)]))
         C.append(dict(rf=1, world=world(1, clone={0: "completed"}), events=[ev("register", a=0, uuid=1, rev=1), ev("start", addrs=[0], fs=fl((0, "setmoderw"))), ev("read", off=0, len=4096)]))
+        # the clone has not published its status yet for the first polls (the controller must keep waiting, whatever
+        # the final status is)
+        for clone in ("completed", "error"):
+            for k in (1, 4):
+                C.append(dict(rf=1, world=world(1, clone={0: clone}, polls={0: k}), events=[ev("register", a=0, uuid=1, rev=1), ev("start", addrs=[0]), ev("read", off=0, len=4096)]))
     return C
 
 
@@ -96,7 +101,7 @@ def main(ctx, replay=None):
     ctl_diffs = [b for b in cbad if b["field"]]
     # oracles relevant to the control half: C07 (promotion only by a successful verify, chain and counter equal),
     # C04 (reader is RW), C18 (one rebuilder), C05
-    ctl_oracle = [b for b in cbad if set(b["fails"]) & {"C04", "C18", "C05", "C07"}]
+    ctl_oracle = [b for b in cbad if set(b["fails"]) & {"C04", "C18", "C05", "C07", "C19"}]
 
     # data half: whole-system scenarios
     S = scenarios(pid, quick, ctx.rng)
